@@ -58,4 +58,29 @@ PROPS = {
                      "Mailbox invariant Inv.1-5 at entry (DESIGN 6.2)"],
         not_decided="COPY/MOVE/APPEND additions, EXAMINE frame, refused-command frame",
     ),
+    "C02": dict(
+        design_ref="DESIGN.md 7 C02",
+        technique="contract-based deductive verification (PyVC + z3) of the UID allocation core (check_new_msgs_and_flags) and of expunge as invariant-preserving operations; real-folder oracle as bounded cross-check",
+        category="other",
+        text="Mailbox.check_new_msgs_and_flags is proved, for all mailbox states satisfying the representation invariant and all external deliveries (assumption E1), to keep the existing UID list as a prefix, "
+             "to give new messages the consecutive UIDs old next_uid, old next_uid+1, ..., to advance next_uid by exactly that count (never lowering it), to leave uid_vv alone and to re-establish the invariant "
+             "(UIDs strictly ascending and all below next_uid). Mailbox.expunge is proved to keep every surviving key/UID pair, order, next_uid and uid_vv. History-freshness of UIDs follows by induction over operations (DESIGN 2.7).",
+        note="Partial: append/copy (APPENDUID/COPYUID), rename-inbox allocation, get_next_uid_vv/delete/_restore_from_db (UIDVALIDITY), selected()/STATUS reporting and the persistence codec are not yet under contract. "
+             "Assumed contracts on callees are listed in the evidence (trusted_base).",
+        assumptions=["z3 sound", "PyVC encoding (DESIGN 2.2)", "E1: external agents only add larger-numbered files (stated as set, list-prefix and cardinality facts)", "A-MH contracts for MH.keys/get_sequences/set_sequences/remove",
+                     "writer exclusivity across awaits (management task runs the resync with no executing command)"],
+        not_decided="UIDVALIDITY clauses, APPENDUID/COPYUID, restart/crash behaviour (C11/C12)",
+    ),
+    "C13": dict(
+        design_ref="DESIGN.md 7 C13",
+        technique="contract-based deductive verification (PyVC + z3) of check_new_msgs_and_flags (delivery post-condition) and of expunge's on-disk sequence post-condition over a ghost model of the MH folder; real-folder oracle as bounded cross-check",
+        category="other",
+        text="For all mailbox states and all deliveries allowed by E1, check_new_msgs_and_flags is proved to append exactly the new files in ascending order, to give each \\Recent, \\Seen exactly when the agent did not list it in "
+             "`unseen`, and otherwise exactly the agent's sequences, to leave every existing message's flags untouched and to write .mh_sequences equal to the in-memory flags. expunge is proved to delete exactly the removed files "
+             "and (after the recorded fix) to leave no removed key in .mh_sequences, so a reused number inherits nothing.",
+        note="Partial: store/fetch/append/copy's .mh_sequences post-conditions, the mtime shortcut and the management-task polling (announcement to every selected session) are not yet under contract. "
+             "The folder is a ghost model (set of keys + sequences) updated by assumed contracts of mailbox.MH (A-MH).",
+        assumptions=["z3 sound", "PyVC encoding (DESIGN 2.2)", "E1 (see C02)", "A-MH: contracts of MH.keys/get_sequences/set_sequences/remove", "writer exclusivity across awaits"],
+        not_decided="announcement to every selected session (C01), mtime granularity, inactive-mailbox checks in user_server",
+    ),
 }
